@@ -212,6 +212,7 @@ func (s *fileSeedSegment) copy(dst, src *os.File, srcOffset, length, dstOffset u
 	// Copy using a fixed buffer. Using io.Copy() with a LimitReader will make it
 	// create a buffer matching N of the LimitReader which can be too large
 	copied, err := io.CopyBuffer(dst, io.LimitReader(src, int64(length)), make([]byte, 64*1024))
+	verifAsm("copy", -1, srcOffset, uint64(copied), dstOffset, src.Name())
 	return uint64(copied), 0, err
 }
 
